@@ -65,14 +65,18 @@ class Contracts:
         self.includes = []
         cur = None
         lines = []
-        for raw in open(path, encoding='utf-8').read().split('\n'):
-            m = re.match(r'@@\s*include\s+(\S+)', raw)
-            if m:
-                inc = os.path.join(os.path.dirname(path), m.group(1).replace('$FT', ftag))
-                self.includes.append(inc)
-                lines += [l for l in open(inc, encoding='utf-8').read().split('\n')]
-            else:
-                lines.append(raw)
+        def read(p, depth=0):
+            for raw in open(p, encoding='utf-8').read().split('\n'):
+                m = re.match(r'@@\s*include\s+(\S+)', raw)
+                if m and depth < 4:
+                    inc = os.path.join(os.path.dirname(path), m.group(1).replace('$FT', ftag))
+                    if inc in self.includes:
+                        continue            # each include file enters a unit once
+                    self.includes.append(inc)
+                    read(inc, depth + 1)
+                else:
+                    lines.append(raw)
+        read(path)
         for raw in lines:
             if raw.startswith('@@'):
                 parts = raw[2:].split()
@@ -505,6 +509,7 @@ def unit_def(unit):
 HEADER = '''// GENERATED by /verif/tools/extract.py from /repo's working tree - do not edit.
 // unit: %(unit)s   (cfg(feature = ..) resolved for the feature set recorded in the .map.json)
 #![allow(unused_imports, unused_variables, unused_mut, dead_code, unused_parens, non_snake_case)]
+#![feature(allocator_api)]
 use vstd::prelude::*;
 use std::sync::Arc;
 verus! {
@@ -605,9 +610,17 @@ def unit_rewrites(ud, rel, s, rw):
         s = rw.literal('T8', s, 'std::f64::consts::E', 'c_e()')
         s = rw.literal('T8', s, 'Decimal::PI', 'dec_c_pi()')
         s = rw.literal('T8', s, 'Decimal::E', 'dec_c_e()')
+    if part == 'glue' and stack in ('f64', 'number', 'complex'):
+        s = t8_f64_consts(s, rw)
+    if part == 'ast' and stack == 'complex':
+        s = t8_f64_consts(s, rw)
     if rel.endswith('/mod.rs') and part == 'glue':
         # T19: `expr.split_whitespace().collect::<String>()` -> helper with an assumed contract (body = the original expression)
-        s = rw.literal('T19', s, 'expr.split_whitespace().collect::<String>()', 'verif_strip_ws(&expr)', expect=1)
+        n0 = s.count('expr.split_whitespace().collect::<String>()') + s.count('expr.split_ascii_whitespace().collect::<String>()')
+        if n0 != 1:
+            raise LostAnchor("T19: expected one whitespace-stripping idiom `expr.split_[ascii_]whitespace().collect::<String>()`, found %d" % n0)
+        s = rw.literal('T19', s, 'expr.split_whitespace().collect::<String>()', 'verif_strip_ws(&expr)')
+        s = rw.literal('T19', s, 'expr.split_ascii_whitespace().collect::<String>()', 'verif_strip_ascii_ws(&expr)')
     if rel.endswith('/tokenizer.rs') or rel.endswith('deserialize_superscript_number.rs'):
         # T10: the two adapter-chain idioms -> helpers with assumed contracts (bodies are the original expressions)
         s = rw.regex('T10', s, r'self\.expr\.clone\(\)\.take\((\d+)\)\.collect::<String>\(\)', r'verif_peek_str(&self.expr, \1)')
@@ -641,9 +654,7 @@ def unit_rewrites(ud, rel, s, rw):
             # T20..T23: IEEE primitives Verus has no encoding for are outlined to helpers whose *bodies are the original
             # primitive* and whose contract is an uninterpreted function of the operands (f64_header.vinc)
             s = t20_float_neg(s, rw)
-            for name, fn in (('f64::NEG_INFINITY', 'c_neg_inf()'), ('f64::INFINITY', 'c_inf()'), ('f64::NAN', 'c_nan()'),
-                             ('std::f64::consts::PI', 'c_pi()'), ('std::f64::consts::E', 'c_e()')):
-                s = rw.literal('T8', s, name, fn)
+            s = t8_f64_consts(s, rw)
             if stack == 'f64':
                 s = rw.regex('T22', s, r'\b(\w+) as usize\b', r'verif_to_usize(\1)')
             s = t22_cast_to_f64(s, rw)
@@ -726,6 +737,18 @@ def t20_float_neg(s, rw):
     out.append(s[i:])
     rw.count('T20', n)
     return ''.join(out)
+
+
+F64_CONSTS = (('f64::NEG_INFINITY', 'c_neg_inf()'), ('f64::INFINITY', 'c_inf()'), ('f64::NAN', 'c_nan()'),
+              ('std::f64::consts::PI', 'c_f64_pi()'), ('std::f64::consts::E', 'c_f64_e()'), ('f64::EPSILON', 'c_f64_epsilon()'),
+              ('f64::MIN_POSITIVE', 'c_f64_min_positive()'), ('f64::MAX', 'c_f64_max()'), ('f64::MIN', 'c_f64_min()'))
+
+
+def t8_f64_consts(s, rw):
+    """T8: associated constants of f64 -> helpers with uninterpreted values (f64_prims.vinc)."""
+    for name, fn in F64_CONSTS:
+        s = rw.regex('T8', s, r'(?<![\w:])' + re.escape(name) + r'\b', fn)
+    return s
 
 
 def t22_cast_to_f64(s, rw):
